@@ -148,6 +148,18 @@ def value_store_none_is_a_value(ctx, rule, consequence, example):
     ctx.require(n_reads >= 1, "no .get() read of the per-instance value store found")
 
 
+def transport_is_plain_json(ctx, rule):
+    """JSONSerialization.dumps / loads hand the value to json.dumps / json.loads as it is (no rewriting of numbers, no
+    extra options): what is validated against the schema, and what comes back, is the value the codecs produced."""
+    for nm, mod in (("dumps", "json.dumps"), ("loads", "json.loads")):
+        g = ctx.repo.method(SER, nm)
+        rets = returns(g.node)
+        ok = len(rets) == 1 and isinstance(rets[0].value, ast.Call) and norm(rets[0].value.func) == mod and len(rets[0].value.args) == 1 \
+            and not rets[0].value.keywords and norm(rets[0].value.args[0]) == g.params[-1]
+        (ctx.ok if ok else ctx.fail)(rule, g, g.node, "%s is plain %s(x)" % (nm, mod) if ok else "%s is no longer plain %s(x): the text is not the value the codecs produced (numbers rewritten, "
+                                     "non-standard JSON) / is decoded differently" % (nm, mod))
+
+
 def codec_none_guards(ctx, rule, only=None):
     """Every serialize / deserialize override maps None -- and only None -- to None before touching the value (a truthiness
     test sends (), 0, '' and [] to null as well).  Shared by R15.d / R16.n."""
@@ -294,12 +306,7 @@ def run(ctx):
             ok = bool(stores)
     (ctx.ok if ok else ctx.fail)("R15.f", dp, des[0] if des else dp.node, "components[name] = pobj.param[name].deserialize(value) for every decoded (name, value)" if ok else
                                  "deserialize_parameters does not decode each value with the deserializer of the parameter of the same name")
-    for nm, mod in (("dumps", "json.dumps"), ("loads", "json.loads")):
-        g = ctx.repo.method(SER, nm)
-        rets = returns(g.node)
-        ok = len(rets) == 1 and isinstance(rets[0].value, ast.Call) and norm(rets[0].value.func) == mod and len(rets[0].value.args) == 1 \
-            and not rets[0].value.keywords and norm(rets[0].value.args[0]) == g.params[-1]
-        (ctx.ok if ok else ctx.fail)("R15.f", g, g.node, "%s is plain %s(x)" % (nm, mod) if ok else "%s is no longer plain %s(x): the text is not standard JSON / is decoded differently" % (nm, mod))
+    transport_is_plain_json(ctx, "R15.f")
     rets = returns(sp.node)
     ok = rets and isinstance(rets[-1].value, ast.Call) and norm(rets[-1].value.func) == "cls.dumps"
     lds = [c for c in ast.walk(dp.node) if isinstance(c, ast.Call) and norm(c.func) == "cls.loads"]
